@@ -118,6 +118,9 @@ pub struct BatchOutcome {
     pub combined_hash: u64,
 }
 
+/// set by the harness's panic hook when the hook probe panic reaches it
+pub static LAST_PANIC_PROBE: Mutex<String> = Mutex::new(String::new());
+
 thread_local! {
     pub static LAST_PANIC: std::cell::RefCell<String> = const { std::cell::RefCell::new(String::new()) };
 }
@@ -137,6 +140,11 @@ pub fn install_quiet_panic_hook() {
             .location()
             .map(|l| format!("{}:{}", l.file(), l.line()))
             .unwrap_or_default();
+        if msg.contains("t2n-hook-probe") {
+            if let Ok(mut g) = LAST_PANIC_PROBE.lock() {
+                *g = msg.clone();
+            }
+        }
         let _ = LAST_PANIC.try_with(|p| {
             if let Ok(mut p) = p.try_borrow_mut() {
                 *p = format!("{msg} @ {loc}");
